@@ -32,7 +32,8 @@ def serialize_json(
 
     _member = HeaderMember(**member)
     headers = _member.headers()
-    if "b64" not in headers:
+    # "b64" MUST be integrity protected (RFC 7797, section 3)
+    if not _member.protected or "b64" not in _member.protected:
         return _serialize_json(member, payload, private_key, algorithms, registry)
 
     if registry is None:
@@ -105,8 +106,8 @@ def _extract_json(value: FlattenedJSONSerialization) -> t.Optional[FlattenedJSON
 
     header = value.get("header")
     member = HeaderMember(protected, header)
-    headers = member.headers()
-    if "b64" not in headers:
+    # "b64" MUST be integrity protected (RFC 7797, section 3)
+    if not protected or "b64" not in protected:
         return None
 
     payload = to_bytes(value["payload"])
